@@ -22,6 +22,9 @@ CLAIMED = {
  "C16": ("deterministic simulation on the fake clock with statement-level preemption in heartbeat_manager.go: 1-3 tasks interleave AddFunctionType(heartbeat)/StartHeartbeat/StopHeartbeat/IsHeartbeatRunning/RemoveEntity with pauses of fractions and multiples of the timeout; a subscribed scripted peer records every refresh; history oracle + live heartbeat goroutine count from the task table",
          "Seeded exploration of histories and interleavings (statement granularity inside heartbeat_manager.go) of heartbeat operations from 1-3 tasks for timeouts 100 ms-60 s (including 2 s, 2.1 s and 4 s where the period is shortened), on the fake clock (ticks are never skipped while the heartbeat goroutine is busy, rule T2). Oracle: counters strictly increase, timestamps are current, while the history says certainly running consecutive refreshes are at most the announced timeout apart and each is notified to the subscriber, never more than one heartbeat goroutine alive once all operations returned (0 after a final stop/removal, 1 after a final start), at most one refresh after the final stop returned however far the clock advances, IsHeartbeatRunning agrees with the history where determinate, and no task panics (double close, start before the function exists).",
          "Sampling; trusted: instrumenter (statement-level yields), synctest fake clock, oracle in harness/sc_c16.go. Ticks are not dropped (rule T2), so a heartbeat goroutine that is starved for longer than a period is not explored.", "5/C16"),
+ "C20": ("deterministic simulation: use-case operations as sequential histories (with a scripted peer reading nodeManagementUseCaseData after random operations) and as concurrent read-modify-write cycles from one task per entity under seeded schedules; reference map oracle over HasUseCaseSupport, DataCopy and the peer's replies",
+         "Seeded exploration of histories of Add/Remove/SetAvailability/RemoveAll/Has over 2-3 entities x 2 actors x 3 names (re-adds, unknown removals, last use case of an actor), sequentially with peer reads at arbitrary points, and concurrently from one task per entity (statement-level preemption in entity_local.go in the thorough tier). Oracle: HasUseCaseSupport after every operation, every peer reply and the final registry equal the reference map of what the application declared (version, sub revision, availability, scenarios last given); operations on one entity never affect another entity's use cases - a lost update is a violation.",
+         "Sampling; trusted: instrumenter, synctest, the reference map in harness/sc_c20.go.", "5/C20"),
  "C03": ("deterministic simulation: scripted peers interleave bind/unbind/subscribe/write with conn.drop, conn.restart, peer.entity_remove and net.dup faults; reference binding registry decides per write whether it is authorised; data snapshots, outbound traces and events are the observables",
          "Seeded exploration of interleaved histories of bind, unbind, subscribe, write (from the bound feature, from another feature of the same peer, to read-only functions), disconnect/reconnect and entity removal by 2-3 peers with overlapping numbering against 2-6 local server features; for each delivered write the oracle requires, when unauthorised, unchanged data, no notification, no data-change event and exactly one error result, and when authorised, the data applied, one notify per current subscriber, one event and a success result iff ack.",
          "Sampling; trusted: instrumenter, synctest, registry model (A.5). Writes whose handling overlaps a registry change on their key, or other updates of the same function, are only checked for <=1 result.", "5/C03"),
